@@ -37,7 +37,9 @@ def only(rule_fn, pred, note):
     """share a rule with another property, keeping only the obligations relevant to that property"""
     def wrapped(ctx):
         res = rule_fn(ctx)
+        n_all = len(res.obs)
         res.obs = [o for o in res.obs if pred(o["key"])]
+        res.filtered_from = n_all     # the floor counts the rule's instances before the restriction
         res.note("shared rule, restricted to: " + note)
         return res
     wrapped.__name__ = getattr(rule_fn, "__name__", "rule") + "_only"
@@ -122,7 +124,7 @@ def run_property(pid, rules_fn, level, explanation, assumptions, trusted_base, t
         discharged += ok
         analysed |= r.analysed
         floor = floors.get(r.id)
-        if floor is not None and n < floor:
+        if floor is not None and getattr(r, "filtered_from", n) < floor:
             violations.append({"rule": r.id, "kind": "analysis-precondition", "key": "floor",
                                "loc": "-", "detail": "rule %s matched %d instance(s), floor is %d: the anchor of this rule was not found, the property is NOT shown to hold" % (r.id, n, floor)})
         for o in bad:
